@@ -4,6 +4,7 @@ package main
 // symbolic values over a State.
 
 import (
+	"sort"
 	"fmt"
 	"go/ast"
 	"go/constant"
@@ -650,6 +651,22 @@ func (e *Env) evalCall(c *ast.CallExpr) Val {
 			return intVal(t)
 		}
 		return intVal("0")
+	case "nerrall":
+		// nerrall(): calls (in this iteration/path) of ANY function, method or callback under contract that
+		// returned a non-nil error. `result != nil ==> nerrall() > 0` says that an error is passed on, not
+		// made up: the function fails only when something it called failed.
+		var ks []string
+		for k := range e.st.ghostInt {
+			if strings.HasPrefix(k, "rerr:") && k != "rerr:fmt.Errorf" && k != "rerr:errors.New" {
+				ks = append(ks, k) // the error constructors make errors up; they are not failures
+			}
+		}
+		sort.Strings(ks)
+		sum := Term("0")
+		for _, k := range ks {
+			sum = Term("(+ " + string(sum) + " " + string(e.st.ghostInt[k]) + ")")
+		}
+		return intVal(sum)
 	case "ntrue", "nerr":
 		// ntrue("callee label") / nerr("callee label"): calls (in this iteration/path) of a
 		// function that returned true / a non-nil error
